@@ -21,7 +21,8 @@ RULE = (
     "params/result, every use site and the alias object itself for alias-declared unions; LSPAny is exercised by JSON "
     "kind) and k shapes of the alternative are generated (minimal, maximal, random; arrays with elements of differing "
     "shape); oracle: structuring raises nothing and the result is well typed for an alternative the value is valid for "
-    "(C03 predicate). non-trivial = every pinned case; distinct = sha256(root, JSON)"
+    "(C03 predicate); string alternatives are additionally given every property name of their sibling object "
+    "alternatives (and strings containing one). non-trivial = every pinned case; distinct = sha256(root, JSON)"
 )
 
 SHAPES_QUICK = ["min", "max"] + ["rand"] * 6
@@ -41,6 +42,39 @@ def make_target(shape: str):
     return target
 
 
+def sibling_key_strings(model, t: dict, idx: int) -> List[str]:
+    """for a string alternative of a union: the property names of the sibling object alternatives (and strings that
+    contain them) - the values most likely to be mistaken for an object by a hand-written discriminator."""
+    alt = model.resolve_alias(t["items"][idx])
+    if not (alt["kind"] == "base" and alt["name"] in ("string", "DocumentUri", "URI", "RegExp")):
+        return []
+    names: List[str] = []
+
+    def collect(x: dict, seen=()):
+        x = model.resolve_alias(x)
+        if x["kind"] == "reference" and x["name"] in model.structs:
+            names.extend(p["name"] for p in model.flat_props(x["name"]))
+        elif x["kind"] == "or":
+            for i in x["items"]:
+                collect(i)
+        elif x["kind"] == "array":
+            collect(x["element"])
+        elif x["kind"] == "literal":
+            names.extend(p["name"] for p in x["value"]["properties"])
+
+    for j, it in enumerate(t["items"]):
+        if j != idx:
+            collect(it)
+    names = sorted(set(names))
+    return names + [f"a-{n}-b" for n in names]
+
+
+def make_fixed_target(value: str):
+    def target(gen: tvgen.Gen, t: dict, locus: str, depth: int) -> TV:
+        return tvgen.P(value, ("base", "string"))
+    return target
+
+
 def _work(args) -> dict:
     items, seed, shapes = args
     sub = valuecheck.subject()
@@ -52,9 +86,14 @@ def _work(args) -> dict:
             T = sub.root_type(root)
         except Exception:
             continue
-        for shape in sorted(set(shapes)):
-            n = shapes.count(shape)
-            cfg = GenCfg(route=route, target=make_target(shape))
+        occ_t = sub.objects.type_at.get(occ)
+        extra_shapes = [("key:" + s, s) for s in (sibling_key_strings(sub.model, occ_t, idx) if occ_t else [])]
+        for shape in sorted(set(shapes)) + [e[0] for e in extra_shapes]:
+            n = shapes.count(shape) if not shape.startswith("key:") else 1
+            if shape.startswith("key:"):
+                cfg = GenCfg(route=route, target=make_fixed_target(shape[4:]))
+            else:
+                cfg = GenCfg(route=route, target=make_target(shape))
             strat = tvgen.value_strategy(sub.objects, root, cfg)
 
             def one(x):
